@@ -18,14 +18,18 @@ RULE = ("cases = (config, source): (a) grammar-generated templates (expressions,
         "continue/debug, line statements, whitespace control, Unicode names) + deterministic "
         "nesting ladders (depth<=24 statements, <=40 expressions) + a table of corner forms; "
         "(b) 13 kinds of token-level mutation of (a) using env.lex tokens; (c) every string of "
-        "length<=3 (quick) / <=4 + sampled 5 (thorough) over 25 delimiter/keyword symbols, "
-        "translated to each config's delimiters. distinct = distinct (config, outcome class, "
+        "length<=3 (quick) / <=4 + sampled 5-7 (thorough) over 25 delimiter/keyword symbols, "
+        "translated to each config's delimiters, enumerated length-major and cut by a time box on "
+        "a loaded machine (counter exhaustive_cut; the completed length is reported as "
+        "exhaustive_complete_length_sum_over_shards / 16). distinct = distinct (config, outcome class, "
         "abstracted source shape [identifiers->n, digits->1, whitespace collapsed, first 60 "
         "tokens]) among sources containing at least one delimiter")
 LEVEL_TEXT = ("held (modulo listed known findings) on K (config, source) executions: every outcome "
               "was a template whose generated Python also compiles, or a TemplateSyntaxError with "
               "1<=lineno<=1+#linebreaks; bounded-exhaustive over the 25-symbol alphabet to length "
-              "3/4, random beyond; not all Unicode strings")
+              "3 (quick) / 4 (thorough) when exhaustive_complete_shards == 16, otherwise to the "
+              "reported completed length plus a prefix of the next; random beyond; not all Unicode "
+              "strings")
 ASSUMPTIONS = [
     "only load-time totality: templates are not rendered",
     "hang = a case exceeding the per-case CPU budget (1.5 s, ITIMER_PROF; wall-clock backstop 20x) that "
@@ -43,12 +47,14 @@ HARD_TIMEOUT_S = {"quick": 900, "thorough": 4000}
 FLOORS = {
     "quick": {"evaluations": 25000, "distinct": 8000,
               "counters": {"ok": 8000, "tse": 8000, "gen_cases": 1000, "mut_cases": 4000,
-                           "exh_cases": 15000, "ladder_cases": 400, "corner_cases": 2500,
+                           "exh_cases": 15000, "ladder_cases": 1200, "corner_cases": 7500,
                            "raw_compile_ok": 5000, "lineno_checked": 8000}},
-    "thorough": {"evaluations": 300000, "distinct": 60000,
-                 "counters": {"ok": 60000, "tse": 100000, "gen_cases": 5000, "mut_cases": 20000,
-                              "exh_cases": 250000, "ladder_cases": 400, "corner_cases": 2500,
-                              "raw_compile_ok": 20000, "lineno_checked": 100000}},
+    # thorough: 7.2M evaluations at load ~2x, 3.7M (exhaustive cut after length 3)
+    # at load ~5x; floors = 1/4 of the latter
+    "thorough": {"evaluations": 900000, "distinct": 500000,
+                 "counters": {"ok": 500000, "tse": 400000, "gen_cases": 75000, "mut_cases": 300000,
+                              "exh_cases": 500000, "ladder_cases": 1200, "corner_cases": 7500,
+                              "raw_compile_ok": 250000, "lineno_checked": 400000}},
 }
 
 CASE_BUDGET = {"quick": 1.5, "thorough": 2.0}   # CPU seconds per case
@@ -137,7 +143,13 @@ def mechanism(exc):
         return "RecursionError@" + "+".join(sorted(set(files[-60:]))) if files \
             else "RecursionError@?"
     key = f"{type(exc).__name__}@{where}"
-    if isinstance(exc, SyntaxError):
+    if isinstance(exc, SyntaxError) and where != "?" and "compile" not in where.split(":")[-1]:
+        # a Python SyntaxError that does not come from compiling generated
+        # code (e.g. raised while the lexer converts a literal): the raising
+        # function is the mechanism, CPython's wording depends on the input
+        # ('invalid character' / 'invalid decimal literal' for one cause)
+        pass
+    elif isinstance(exc, SyntaxError):
         key += ":" + _norm_msg(exc.msg)
         if exc.msg.startswith("invalid syntax") and exc.text and exc.offset:
             key += ":near " + _near_token(exc.text, exc.offset)
